@@ -3,6 +3,6 @@ CONSTANTS
  DrainBug = TRUE
  LinkCode = TRUE
  DupPathBug = TRUE
- Ids <- SmallIds
-INVARIANTS PropHoldsButKnown KnownReproduced Ordered PassBound
+ Ids <- QuickIds
+INVARIANTS PropExact Ordered PassBound
 CHECK_DEADLOCK TRUE
